@@ -1195,7 +1195,7 @@ def _get_cached_arg_spec(fn: Callable[..., Any]) -> inspect.FullArgSpec:
     except TypeError:
       # `fn` might be a callable object.
       arg_spec = inspect.getfullargspec(unwrapped.__call__)
-    if inspect.ismethod(unwrapped) or not (
+    if inspect.ismethod(fn) or inspect.ismethod(unwrapped) or not (
         inspect.isroutine(unwrapped) or inspect.isclass(unwrapped) or
         isinstance(unwrapped, functools.partial)):
       # A bound method or a callable object: the receiver is already supplied.
